@@ -111,7 +111,17 @@ Theorem mutation_scale_never_negative_or_nan_partial :
 Proof. exact rescale_scale_sign. Qed.
 Print Assumptions mutation_scale_never_negative_or_nan_partial.
 
+(** ... and stays finite and strictly positive as long as it was within [2^-900, 2^900] before
+    the step (from 1.0 that takes at least 22 consecutive extreme factors) *)
+Theorem mutation_scale_stays_positive_finite_in_range :
+  forall s f, fin s = true -> fle tame_lo s = true -> fle s tame_hi = true -> fnan f = false ->
+    fin (rescale s f) = true /\ flt fzero (rescale s f) = true.
+Proof. exact rescale_keeps_pos_fin. Qed.
+Print Assumptions mutation_scale_stays_positive_finite_in_range.
+
 Example meta_valid_somewhere : m_valid expl_base = true /\ fin (m_mscale expl_base) = true.
+Proof. vm_compute. split; reflexivity. Qed.
+Example scale_range_nonvacuous : fle tame_lo (m_mscale expl_base) = true /\ fle (m_mscale expl_base) tame_hi = true.
 Proof. vm_compute. split; reflexivity. Qed.
 
 (** ** the files.  [Writer.wrun] is [handle_detailed_report_items] over the items the controller
